@@ -21,6 +21,14 @@ func checkC17(c *Ctx, r *Report) {
 	r.floor("R17.2", 2)
 	r.floor("R17.3", 3)
 	r.floor("R17.8", 1)
+	// R17.11: connections are served concurrently: nothing on the per-connection path writes
+	// package-level state (C16 R16.6), which would be a data race between two clients
+	{
+		tmp := newReport(r.Prop, r.Tier)
+		c16SharedState(c, tmp)
+		r.instance("R17.11", copyItems(tmp, r, "R16.6", "R17.11"))
+		r.floor("R17.11", 1)
+	}
 	// R17.10: a request whose handler ran gets its complete reply before the connection is let
 	// go: the assembler hands back all replies it produced for a read (C15 R15.3) and the
 	// connection loop writes them before it reads again or returns (C15 R15.4)
